@@ -2,7 +2,7 @@
 C20 niche/tag-byte clause."""
 import re
 from facts import callee_name, strip_refs
-from guards import guards_at, describe, eval_int, cmp_facts, inlined_calls
+from guards import guards_at, describe, eval_int, cmp_facts, inlined_calls, inlined_sites, anchors
 from typestate import WRITE_PRIMS
 from typestate import Solver, T
 
@@ -26,12 +26,26 @@ def rule_T1(ctx, rule="T1-tags"):
     ctx.need(rule, LB, "markers", hm is not None and sm is not None and mask is not None, "LastByte::HeapMarker/StaticMarker/MASK not found")
     if hm is None or sm is None or mask is None:
         return
-    tag = F.const_scalar("repr::heap_buffer::internal::TextLen::TAG")
-    stag = F.const_scalar("repr::static_buffer::StaticBuffer::TAG")
-    ctx.ob(rule, "repr::heap_buffer::internal::TextLen::TAG", "last-byte=HeapMarker", tag is not None and last_mem_byte(F, tag) == hm and tag == (hm << (8 * (F.ptr_bytes - 1)) if F.endian == "little" else hm),
-           how="last memory byte of TextLen::TAG (%s-endian) = HeapMarker = %#x, other bytes 0" % (F.endian, hm), detail="TextLen::TAG = %#x: its last memory byte is not the HeapMarker %#x the readers test" % (tag or 0, hm))
-    ctx.ob(rule, "repr::static_buffer::StaticBuffer::TAG", "last-byte=StaticMarker", stag is not None and last_mem_byte(F, stag) == sm and stag == (sm << (8 * (F.ptr_bytes - 1)) if F.endian == "little" else sm),
-           how="last memory byte of StaticBuffer::TAG = StaticMarker = %#x" % sm, detail="StaticBuffer::TAG = %#x: last memory byte is not StaticMarker %#x" % (stag or 0, sm))
+    # the tag words OR-ed into the length word by the writers (wherever the constants are declared)
+    exp_heap = (hm << (8 * (F.ptr_bytes - 1))) if F.endian == "little" else hm
+    exp_static = (sm << (8 * (F.ptr_bytes - 1))) if F.endian == "little" else sm
+    for fn, exp, what in (("repr::heap_buffer::internal::TextLen::new", exp_heap, "HeapMarker"), ("repr::static_buffer::StaticBuffer::new", exp_static, "StaticMarker"), ("repr::static_buffer::StaticBuffer::set_len", exp_static, "StaticMarker")):
+        b = F.bodies.get(fn)
+        ctx.need(rule, fn, "anchor", b is not None, "%s not found" % fn)
+        if not b:
+            continue
+        ors = []
+        from guards import inlined_bodies
+        for hb, sub in inlined_bodies(b):
+            for blk in hb.blocks:
+                for st in blk["stmts"]:
+                    if st["k"] == "assign" and st["rv"]["k"] == "bin" and st["rv"]["op"] == "BitOr":
+                        for side in ("a", "b"):
+                            o = st["rv"][side]
+                            if "c" in o and "scalar" in o["c"]:
+                                ors.append(o["c"]["scalar"])
+        ctx.ob(rule, fn, "tag-word", ors == [exp] or (ors and all(x == exp for x in ors)), how="length word |= %#x: last memory byte (%s-endian) = %s, other bytes 0" % (exp, F.endian, what),
+               detail="%s ORs %s into the length word; the readers test the last byte against %s = %#x" % (fn, [hex(x) for x in ors], what, hm if what == "HeapMarker" else sm))
     # ordering of tag bytes: text bytes < 0xC0 <= inline tags < HeapMarker < StaticMarker
     lens = [F.enum_discr(LB, "Length%02d" % i) for i in range(M)]
     ctx.ob(rule, LB, "inline-tags", all(l == (mask | i) for i, l in enumerate(lens)) and mask == 0xC0 and (mask | (M - 1)) < hm < sm,
@@ -51,6 +65,11 @@ def rule_T1(ctx, rule="T1-tags"):
                     idx = eval_int(strip_refs(b.origin_local(pe["idx"]))) if "idx" in pe else pe["cidx"]
                     val = b.origin_rvalue(s["rv"])
                     stores.append((bb, idx, val, s))
+        if fn.endswith("::empty") and not stores:
+            # `empty()` written as `Self::new("")`
+            ds = [describe(b, ("call", bb) if si == "term" else b.origin_rvalue(x)) for (bb, si, x) in b.defs.get(0, [])]
+            ctx.ob(rule, fn, "tag-store", len(ds) == 1 and ds[0].startswith("repr::inline_buffer::InlineBuffer::new(const:"), how="empty() = InlineBuffer::new(\"\")", detail="InlineBuffer::empty is %s" % ds)
+            continue
         ctx.need(rule, fn, "tag-store", len(stores) == 1, "%s has %d indexed stores (expected exactly the tag byte)" % (fn, len(stores)), how="one indexed store")
         for bb, idx, val, s in stores:
             ctx.ob(rule, fn, "tag-index", idx == M - 1, how="tag stored at byte %d" % (M - 1), detail="tag byte stored at index %s, readers look at byte %d" % (idx, M - 1))
@@ -117,6 +136,11 @@ def rule_T3(ctx, rule="T3-publish"):
         for bb, t in b.calls():
             if (callee_name(t) in WRITE_CALLS or callee_name(t) in WRITE_PRIMS) and any(bb in b.reachable(v, unwind=False) for v in views):
                 writes.append(bb)
+            # a private helper (method of a small writer struct ...) that performs the write
+            k = t.get("local_key")
+            if k and k in F.bodies and k not in anchors(F) and any(bb in b.reachable(v, unwind=False) for v in views):
+                if any((callee_name(t2) in WRITE_CALLS or callee_name(t2) in WRITE_PRIMS) for _, _, t2 in inlined_calls(F.bodies[k])) or _has_raw_store(F.bodies[k]):
+                    writes.append(bb)
         for bb, blk in enumerate(b.blocks):
             for s in blk["stmts"]:
                 if s["k"] == "assign" and s["lhs"]["p"] and s["lhs"]["p"][0] == "deref" and b.local_ty(s["lhs"]["l"]).startswith("*mut u8"):
@@ -155,22 +179,32 @@ def rule_T3(ctx, rule="T3-publish"):
     ctx.need(rule, "crate", "mutators", n >= 13, "only %d bodies take a mutable view (push_str, insert_str, remove, retain and 10 integer writers expected)" % n, how="%d bodies take a mutable view" % n)
 
 
+def _has_raw_store(b):
+    for blk in b.blocks:
+        for s in blk["stmts"]:
+            if s["k"] == "assign" and s["lhs"]["p"] and s["lhs"]["p"][-1] == "deref" and b.local_ty(s["lhs"]["l"]).startswith("*mut u8"):
+                return True
+            if s["k"] == "assign" and s["lhs"]["p"] and "deref" in s["lhs"]["p"] and s.get("lhs_ty") == "u8":
+                return True
+    return False
+
+
 def rule_T4(ctx, rule="T4-inline-bound"):
     """InlineBuffer::new(text): len(text) <= MAX_INLINE_SIZE at every call site, by one of the enumerated idioms"""
     F = ctx.F
     M = F.const_scalar("repr::MAX_INLINE_SIZE")
     n = 0
-    for path, b in F.bodies.items():
-        for bb, t in b.calls():
-            if callee_name(t) != "repr::inline_buffer::InlineBuffer::new":
-                continue
+    for path, root in F.bodies.items():
+        if path not in anchors(F) or root.j["kind"] == "closure":
+            continue
+        for st in inlined_sites(root, lambda nm: nm == "repr::inline_buffer::InlineBuffer::new"):
             n += 1
-            text = describe(b, b.origin_operand(t["args"][0]))
-            gs = [g for g in guards_at(b, bb) if g[0] == "cmp" and g[3] is not None and g[3] <= M and g[2] is None]
+            text = st.desc(0)
+            gs = [g for g in st.guards() if g[0] == "cmp" and g[3] is not None and g[3] <= M and g[2] is None]
             how = None
             for g in gs:
-                d = describe(b, g[1])
-                if d == "core::str::<impl str>::len(%s)" % text or (text in ("p1",) and d == "core::str::<impl str>::len(p1)"):
+                d = g[1]
+                if d == "core::str::<impl str>::len(%s)" % text:
                     how = "guard len(text) <= %d" % g[3]
                 elif text == "repr::Repr::as_str(p1)" and "checked_add(repr::Repr::len(p1), " in d:
                     how = "guard len(self) + additional <= %d (checked sum >= len)" % g[3]
@@ -178,13 +212,12 @@ def rule_T4(ctx, rule="T4-inline-bound"):
                     how = "guard max(len, min) <= %d" % g[3]
             if how is None and text.startswith("core::char::methods::<impl char>::encode_utf8("):
                 how = "a char's UTF-8 encoding (<= 4 bytes)"
-            if how is None:
-                e = strip_refs(b.origin_operand(t["args"][0]))
+            if how is None and text.startswith("const:"):
+                e = strip_refs(st.body.origin_operand(st.t["args"][0]))
                 if e[0] == "const":
                     how = "string literal"
-            site = "%s#%d" % ("InlineBuffer::new", sum(1 for i in range(bb) if b.term(i)["k"] == "call" and callee_name(b.term(i)) == callee_name(t)))
-            ctx.ob(rule, path, site, how is not None, how=how or "", line=t.get("line", 0),
-                   detail="InlineBuffer::new(%s) is not dominated by a proof that the text fits %d bytes (guards: %s)" % (text, M, [(describe(b, g[1]), g[3]) for g in gs]))
+            ctx.ob(rule, path, st.label(), how is not None, how=how or "", line=st.line,
+                   detail="InlineBuffer::new(%s) is not dominated by a proof that the text fits %d bytes (guards: %s)" % (text, M, [(g[1][:60], g[3]) for g in gs]))
     ctx.need(rule, "crate", "sites", n >= 5, "only %d InlineBuffer::new call sites" % n, how="%d InlineBuffer::new call sites" % n)
 
 
